@@ -173,7 +173,7 @@ class Gen:
         s.r = rng; s.size, s.depth, s.edepth, s.typed = size, depth, edepth, typed
         s.p_docs, s.p_stmtc, s.p_shadow, s.forward, s.lits, s.nonascii = docs, stmt_comments, shadow, forward, lits, nonascii
         s.max_stmts = max_stmts if max_stmts is not None else size
-        s.P = Program(); s.n = 0; s.cur = None; s.ncomment = 0; s.type_pool = None
+        s.P = Program(); s.n = 0; s.cur = None; s.ncomment = 0; s.type_pool = None; s.in_body = False
 
     def fresh(s, prefix):
         s.n += 1; return "%s%d" % (prefix, s.n)
@@ -211,6 +211,8 @@ class Gen:
         """returns (node, Ty, named type decl or None)"""
         r = s.r
         pool = s.type_pool if s.type_pool is not None else s.P.types
+        if s.cur is not None and s.in_body:
+            pool = [t for t in pool if t.name not in s.cur.names]    # a local of that name hides the type (locals are looked up first)
         choices = ["int"]
         if pool: choices += ["named", "named"]
         if depth < 2: choices += ["array"]
@@ -275,6 +277,8 @@ class Gen:
         if r.random() < s.p_shadow and len(s.P.procs) > 0:
             # a local that hides a global procedure (legal; that procedure is then not callable here)
             cand = [p.name for p in s.P.procs if p.name not in proc.names and p is not proc] + [b for b in ("printi", "readi") if b not in proc.names]
+            # ... or a global type (the type is then not usable in later variable declarations of this procedure)
+            cand += [t.name for t in (getattr(proc, "visible_types", None) or s.P.types) if t.name not in proc.names]
             if cand:
                 n = r.choice(cand); proc.names.add(n); return n
         for _ in range(20):
@@ -284,7 +288,7 @@ class Gen:
 
     def proc_body(s, d):
         r = s.r; s.cur = d
-        s.type_pool = d.visible_types
+        s.type_pool = d.visible_types; s.in_body = True
         vars_ = []
         for i in range(r.randint(0, 3)):
             vname = s.local_name(d, "v")
@@ -300,7 +304,7 @@ class Gen:
         n = d.node
         n.vars, n.stmts = vars_, stmts
         n.parts = n.parts[:d.head_len] + vars_ + stmts + [d.rcurly]
-        s.type_pool = None
+        s.type_pool = None; s.in_body = False
 
     # ---- expressions
     def intlit(s, n=None, forms=None):
